@@ -15,7 +15,7 @@ import (
 //
 //   - the broadcast address constant;
 //   - DTLSRPeerData.ShouldReplace (the `>` of the replace-if-newer rule);
-//   - skeletons of NotifyNewBundle, SenderForBundle, computeRoutingTable, newNode, recomputeCron
+//   - skeletons of NotifyNewBundle, SenderForBundle, ReportFailure, computeRoutingTable, newNode, recomputeCron
 //     (pkg/routing/algorithm_dtlsr.go) and filterCLAs (pkg/routing/algorithm.go), plus targeted facts
 //     read out of computeRoutingTable: the edge-cost assignments and their guards, the Shortest call,
 //     the next-hop expression, the fresh table;
@@ -39,11 +39,13 @@ func init() {
 			{bpv7Dir, "DTLSRPeerData", "ShouldReplace", "shouldReplace"},
 			{routingDir, "DTLSR", "NotifyNewBundle", "notifyNewBundle"},
 			{routingDir, "DTLSR", "SenderForBundle", "senderForBundle"},
+			{routingDir, "DTLSR", "ReportFailure", "reportFailure"},
 			{routingDir, "DTLSR", "computeRoutingTable", "computeRoutingTable"},
 			{routingDir, "DTLSR", "newNode", "newNode"},
 			{routingDir, "DTLSR", "recomputeCron", "recomputeCron"},
 			{routingDir, "DTLSR", "ReportPeerAppeared", "reportPeerAppeared"},
 			{routingDir, "DTLSR", "ReportPeerDisappeared", "reportPeerDisappeared"},
+			{routingDir, "DTLSR", "purgePeers", "purgePeers"},
 			{routingDir, "", "filterCLAs", "filterCLAs"},
 		} {
 			fd, err := x.Func(f.dir, f.recv, f.name)
